@@ -236,6 +236,23 @@ var perturbations = []perturb{
 		j := (i + 1) % len(cs)
 		cs[j].LogId, cs[j].LogBackendName = cs[i].LogId, cs[i].LogBackendName
 	}},
+	{"treeid.duplicate-interleaved", "reject", func(w *CfgWorld, m *configpb.LogMultiConfig, i int) {
+		// the same tree id twice on one backend with a log of another backend using it in between
+		if len(m.Backends.Backend) < 2 {
+			m.Backends.Backend = append(m.Backends.Backend, &configpb.LogBackend{Name: "be-extra", BackendSpec: "extra.example:8090"})
+		}
+		cs := m.LogConfigs.Config
+		for len(cs) < 3 {
+			c := proto.Clone(cs[0]).(*configpb.LogConfig)
+			c.Prefix = fmt.Sprintf("%s-twin%d", cs[0].Prefix, len(cs))
+			cs = append(cs, c)
+		}
+		m.LogConfigs.Config = cs
+		a, b := m.Backends.Backend[0].Name, m.Backends.Backend[1].Name
+		cs[0].LogId, cs[0].LogBackendName = 777, a
+		cs[1].LogId, cs[1].LogBackendName = 777, b
+		cs[2].LogId, cs[2].LogBackendName = 777, a
+	}},
 	{"treeid.same-on-other-backend", "harmless", func(w *CfgWorld, m *configpb.LogMultiConfig, i int) {
 		cs := m.LogConfigs.Config
 		if len(m.Backends.Backend) < 2 {
@@ -388,6 +405,8 @@ func (w *CfgWorld) Init(s *kernel.Sim) {
 	w.multi = m
 	s.Logf("config verdict=%s perturbations=%v logs=%d backends=%d", w.verdict, w.why, nLogs, nBE)
 }
+
+var twinRE = regexp.MustCompile(`-twin[0-9]*$`)
 
 var tmpDirRE = regexp.MustCompile(`[^"\\ ]*/TestSim[0-9]+/[0-9]+`)
 
@@ -593,7 +612,7 @@ func (w *CfgWorld) bootAndLive(s *kernel.Sim) {
 				b.be.Sequence(-1, false)
 			}
 			if b.store != nil {
-				k := w.keys[strings.TrimSuffix(b.cfg.Prefix, "-twin")]
+				k := w.keys[twinRE.ReplaceAllString(b.cfg.Prefix, "")]
 				// the source log publishes STHs at sizes around the mirror's tree: behind, equal, ahead
 				for _, d := range []int{-2, 0, 1, 3} {
 					if t.Chance(1, 2) {
